@@ -39,6 +39,13 @@ Proof. vm_compute. reflexivity. Qed.
 Theorem every_incidental_site_known : unknown_incidental_sites = [].
 Proof. vm_compute. reflexivity. Qed.
 
+(** no channel operation, select, timer / timeout, deadline, sync / atomic use or runtime query in consensus packages beyond
+    the listed ones (each line with its justification; the producer / consumer lines of omap.Range carry a theorem) *)
+Definition unclassified_conc_sites : list conc_site := filter (fun k => negb (conc_okb k)) conc_sites.
+
+Theorem every_conc_site_classified : unclassified_conc_sites = [].
+Proof. vm_compute. reflexivity. Qed.
+
 (** no long-lived object of the consensus code holds a process-local map / cache / sync object beyond the reviewed ones,
     and no package-level map is written after initialisation: execution reads nothing but the store and the block *)
 Definition unreviewed_process_state : list pstate := filter (fun p => negb (ps_okb p)) process_state.
@@ -82,15 +89,15 @@ Proof.
 Qed.
 Print Assumptions C01_current_tree_restart_independent.
 
-Definition current_cfg : cfg := cfg_of_facts map_sites toslice_uses.
+Definition current_cfg : cfg := cfg_of_facts map_sites toslice_uses conc_sites.
 
 Theorem current_cfg_ok : cfg_ok current_cfg = true.
 Proof. vm_compute. reflexivity. Qed.
 
 (** the main theorem instantiated with the mechanisms found in the tree as it is now *)
 Theorem C01_current_tree_deterministic :
-  forall (abi : list (Z * Z)) (h : list msg) (π π' : sched),
+  forall (abi : list (Z * Z)) (h : list msg) (π π' : sched) (δ δ' : clock),
     abi_ok abi -> valid_sched π -> valid_sched π' ->
-    run current_cfg abi π h = run current_cfg abi π' h.
-Proof. intros abi h π π' Ha H H'. exact (C01_determinism current_cfg abi h π π' current_cfg_ok Ha H H'). Qed.
+    run current_cfg abi π δ h = run current_cfg abi π' δ' h.
+Proof. intros abi h π π' δ δ' Ha H H'. exact (C01_determinism current_cfg abi h π π' δ δ' current_cfg_ok Ha H H'). Qed.
 Print Assumptions C01_current_tree_deterministic.
